@@ -91,6 +91,82 @@ def raw_cases(env, rnd, tier):
                     yield nt, pay, tuple(rnd.choice(uni[:7]) if rnd.random() < 0.6 else rnd.choice(uni) for _ in range(k))
 
 
+# ---- WIDTH-BOUNDARY family: the width axis of the type grid includes 0 (pysmt lets BVType(0) be declared), the
+#      usual small widths, machine-word edges and widths beyond them, in every ORDERED pair (the rules read the width
+#      of the first operand), alone and as components of array / function sorts.
+WIDTHS = (0, 1, 2, 8, 9, 16, 33, 64, 65, 257)
+
+
+def boundary_universe(env):
+    bvs = [BVType(w) for w in WIDTHS]
+    arrs = [ArrayType(BVType(a), BVType(b)) for a, b in ((0, 8), (8, 0), (9, 16), (16, 9), (0, 0), (257, 1))]
+    arrs += [ArrayType(INT, BVType(0)), ArrayType(BVType(0), INT), ArrayType(BVType(8), ArrayType(BVType(0), BVType(9)))]
+    return bvs, arrs
+
+
+def boundary_raw_cases(env, rnd, tier):
+    """(node_type, payload, argument sorts) around the width boundaries."""
+    m = env.formula_manager
+    bvs, arrs = boundary_universe(env)
+    allb = bvs + arrs + [BOOL, INT]
+    pairs = list(itertools.product(allb, allb))
+    for nt in (op.BV_ULT, op.BV_ULE, op.BV_SLT, op.BV_SLE, op.EQUALS, op.LE, op.LT, op.IFF, op.ARRAY_SELECT):
+        for c in pairs:
+            yield nt, None, c
+    for c in pairs:
+        yield op.ITE, None, (BOOL,) + c
+        yield op.BV_COMP, (1,), c
+    # n-ary shapes: the first operand fixes the width every other operand is compared with
+    for nt in (op.BV_ULT, op.BV_ULE, op.BV_SLT, op.BV_SLE, op.EQUALS):
+        for a in bvs:
+            for b in bvs:
+                for c in (a, b, BVType(0)):
+                    yield nt, None, (a, b, c)
+    for nt in tocoq.BVOPS:
+        if nt in (op.BV_CONCAT, op.BV_COMP):
+            continue
+        for w in WIDTHS:
+            loc = [BVType(w), BVType(0), BVType(1), BVType(w + 1), arrs[0]]
+            for a in loc:
+                yield nt, (w,), (a,)
+                for b in loc:
+                    yield nt, (w,), (a, b)
+    for l in WIDTHS:
+        for r in WIDTHS:
+            for w in sorted({l + r, l, 0}):
+                yield op.BV_CONCAT, (w,), (BVType(l), BVType(r))
+    for base in WIDTHS:
+        for (st, e) in ((0, 0), (0, base - 1), (base - 1, base - 1), (0, base), (base, base), (1, 0)):
+            for w in sorted({e - st + 1, 0, base}):
+                yield op.BV_EXTRACT, (w, st, e), (BVType(base),)
+        for nt in (op.BV_ROL, op.BV_ROR, op.BV_ZEXT, op.BV_SEXT):
+            for w in sorted({base, 0, base + 1}):
+                for k in sorted({0, 1, base, w, base + 1}):
+                    yield nt, (w, k), (BVType(base),)
+    for a in arrs:
+        for x in bvs + [INT]:
+            for v in bvs + [INT]:
+                yield op.ARRAY_STORE, None, (a, x, v)
+    for it in bvs:
+        for d in (BVType(0), BVType(8), INT):
+            for c in ((d,), (d, it, d), (d, BVType(0), d), (d, it, BVType(0)), (d, it, d, BVType(8), d)):
+                yield op.ARRAY_VALUE, it, c
+    fts = [FunctionType(BVType(0), [BVType(8)]), FunctionType(BVType(8), [BVType(0)]), FunctionType(BOOL, [BVType(0), BVType(257)]),
+           FunctionType(arrs[0], [arrs[1]])]
+    for i, ft in enumerate(fts):
+        f = m.Symbol("bfn_%d" % i, ft)
+        for a in allb:
+            yield op.FUNCTION, f, (a,)
+        for a in bvs:
+            for b in bvs:
+                yield op.FUNCTION, f, (a, b)
+    for i, t in enumerate(allb):
+        yield op.BV_TONATURAL, None, (t,)
+        yield op.SYMBOL, ("bs_%d" % i, t), ()
+    for pay in ((0, 0), (0, 257), (5, 65)):
+        yield op.BV_CONSTANT, pay, ()
+
+
 def run(tier):
     chk = lib.Check("C03", tier)
     rnd = random.Random(chk.seed)
@@ -106,10 +182,24 @@ def run(tier):
     argsym = {}
     for i, t in enumerate(universe(env)):
         argsym[t] = [m.Symbol("a%d_%d" % (i, j), t) for j in range(5)]
-    rows, meta = [], []
-    nfail = 0
-    for nt, pay, tys in raw_cases(env, rnd, tier):
-        args = tuple(argsym[t][j] for j, t in enumerate(tys))
+    rows, meta, nodes = [], [], []
+    nfail = nboundary = 0
+
+    def symbols_of(t):
+        if t not in argsym:
+            argsym[t] = [m.Symbol("w%d_%d" % (len(argsym), j), t) for j in range(5)]
+        return argsym[t]
+
+    def all_raw():
+        nonlocal nboundary
+        for x in raw_cases(env, rnd, tier):
+            yield x
+        for x in boundary_raw_cases(env, rnd, tier):
+            nboundary += 1
+            yield x
+    chk.note("proofs built; create_node grid")
+    for nt, pay, tys in all_raw():
+        args = tuple(symbols_of(t)[j] for j, t in enumerate(tys))
         try:
             n = m.create_node(node_type=nt, args=args, payload=pay)
             res = env.stc.get_type(n)
@@ -125,6 +215,7 @@ def run(tier):
             continue
         rows.append("(%s, [%s], %s)" % (o, "; ".join(tocoq.ty(t) for t in tys), "None" if res is None else "(Some %s)" % tocoq.ty(res)))
         meta.append((op.op_to_str(nt), str(pay), [str(t) for t in tys], str(res)))
+        nodes.append(node)
         chk.count(("raw", nt, str(pay), tuple(str(t) for t in tys)))
     chk.sample({"kind": "create_node", "case": meta[len(meta) // 2]})
     files, shard = [], 400
@@ -139,8 +230,26 @@ def run(tier):
         open(p, "w").write(text)
         files.append((p, k, len(rows[k:k + shard])))
     from . import termcases
+    chk.note("%d create_node cases (%d of the width-boundary family) written; running the model on them" % (len(rows), nboundary))
     bad, errs = termcases.run(files)
-    chk.cov["correspondence"] = {"create_node_cases": len(rows), "rejected_by_implementation": nfail,
+    chk.note("model evaluated")
+    # a disagreement is a concrete input: when the implementation ACCEPTED the application, the independent type derivation decides
+    for i in bad[:40]:
+        if meta[i][3] == "None":
+            continue
+        try:
+            t = refeval.type_of(nodes[i])
+            verdict = None if str(t) == meta[i][3] else "independent derivation gives %s" % t
+        except refeval.IllTyped as ex:
+            verdict = "independent derivation: ill-typed (%s)" % ex
+        except Exception:   # noqa: outside the reference's fragment
+            verdict = None
+        if verdict:
+            chk.violation({"kind": "input", "what": "create_node(%s, payload %s) on arguments of sorts %s is accepted with type %s; %s"
+                           % (meta[i][0], meta[i][1], meta[i][2], meta[i][3], verdict),
+                           "repro": "FormulaManager.create_node(node_type=%s, args=<symbols of sorts %s>, payload=%s)" % (meta[i][0], meta[i][2], meta[i][1])},
+                          key="raw:%s:%s:%s" % (meta[i][0], meta[i][1], ",".join(meta[i][2])))
+    chk.cov["correspondence"] = {"create_node_cases": len(rows), "width_boundary_cases": nboundary, "rejected_by_implementation": nfail,
                                  "disagreements": len(bad), "case_file_errors": len(errs),
                                  "examples": [meta[i] for i in bad[:6]]}
     for i in bad[:6]:
@@ -173,12 +282,17 @@ def run(tier):
         except Exception as ex:   # noqa
             return "<get_type raised %s>" % type(ex).__name__
 
-    def judge(name, argdesc, thunk):
+    def judge(name, argdesc, thunk, expect=None):
+        """expect: None, or the verdict of an independent statement of the sorting rule ("accept" / "reject")."""
         nonlocal ncalls
         ncalls += 1
         try:
             f = thunk()
-        except Exception:
+        except Exception as ex0:
+            if expect == "accept":
+                chk.violation({"kind": "input", "what": "%s%s is well-sorted by the rule but was rejected (%s)" % (name, argdesc, type(ex0).__name__),
+                               "repro": "FormulaManager.%s on arguments of sorts/values %s" % (name, argdesc)},
+                              key="ctor-rejects:%s:%s" % (name, argdesc))
             # a rejected application must stay rejected when it is attempted again
             try:
                 f2 = thunk()
@@ -189,6 +303,12 @@ def run(tier):
                           key="ctor2:%s:%s" % (name, argdesc))
             return
         chk.count(("ctor", name, argdesc))
+        if expect == "reject":
+            chk.violation({"kind": "input", "what": "%s%s is ill-sorted by the rule (wrong sort or bit-width) but returned %s of type %s"
+                           % (name, argdesc, f.serialize(), safe_type(f)),
+                           "repro": "FormulaManager.%s on arguments of sorts/values %s" % (name, argdesc)},
+                          key="ctor-accepts:%s:%s" % (name, argdesc))
+            return
         try:
             t = refeval.type_of(f)
         except refeval.IllTyped as ex:
@@ -249,8 +369,139 @@ def run(tier):
         for fn in (m2.Symbol("cf1", FunctionType(INT, [INT])), m2.Symbol("cf2", FunctionType(BOOL, [INT, REAL])), sym[INT][0]):
             judge("Function", "(%s; %s)" % (fn.symbol_type(), t), lambda: m2.Function(fn, [sym[t][0]]))
             judge("Function", "(%s; %s, %s)" % (fn.symbol_type(), t, REAL), lambda: m2.Function(fn, [sym[t][0], sym[REAL][0]]))
+    # ---- width-boundary grid at the constructor level: every ORDERED pair of boundary sorts; the verdict comes from
+    #      the sorting rule stated directly on the two sorts (same-width bit-vectors / same sort / index sort)
+    chk.note("constructor grid done (%d calls); width-boundary constructor grid" % ncalls)
+    n0 = ncalls
+    bvs2, arrs2 = boundary_universe(env2)
+    bsorts = bvs2 + arrs2 + [BOOL, INT]
+    for i, t in enumerate(bsorts + [a.elem_type for a in arrs2]):
+        if t not in sym:
+            sym[t] = [m2.Symbol("b%d_%d" % (i, j), t) for j in range(3)]
+    for w in WIDTHS[1:]:
+        const.setdefault(BVType(w), m2.BV(1, w))
+    same_w = ["BVXor", "BVULT", "BVUGT", "BVULE", "BVUGE", "BVSub", "BVUDiv", "BVURem", "BVLShl", "BVLShr", "BVSLT", "BVSLE", "BVComp",
+              "BVSDiv", "BVSRem", "BVAShr", "BVNand", "BVNor", "BVXnor", "BVSGT", "BVSGE", "BVSMod", "BVAnd", "BVOr", "BVAdd", "BVMul"]
+    rel_like = ["BVULT", "BVUGT", "BVULE", "BVUGE", "BVSLT", "BVSLE", "BVSGT", "BVSGE", "Equals", "NotEquals", "EqualsOrIff", "AllDifferent"]
+
+    def verdict(name, t1, t2):
+        bv2 = t1.is_bv_type() and t2.is_bv_type()
+        if name in same_w or name in ("MinBV", "MaxBV"):
+            if not (bv2 and t1.width == t2.width):
+                return "reject"
+            return "accept" if t1.width >= 1 else None
+        if name in ("Equals", "NotEquals"):
+            return "reject" if (t1 != t2 or t1.is_bool_type()) else "accept"
+        if name in ("EqualsOrIff", "AllDifferent"):
+            return "accept" if t1 == t2 else "reject"
+        if name == "BVConcat":
+            return ("accept" if min(t1.width, t2.width) >= 1 else None) if bv2 else "reject"
+        if name == "Select":
+            return "accept" if (t1.is_array_type() and t1.index_type == t2) else "reject"
+        if name in ("LT", "LE", "Plus"):
+            return "accept" if (t1 == t2 and t1.is_int_type()) else "reject"
+        if name == "Implies":
+            return "accept" if (t1 == t2 and t1.is_bool_type()) else "reject"
+        return None
+
+    def sdesc(t, a):
+        return "%s%s" % (t, "" if a.is_symbol() else " const")
+    for t1 in bsorts:
+        for t2 in bsorts:
+            a, b = sym[t1][0], sym[t2][1]
+            for name in same_w + ["Equals", "NotEquals", "EqualsOrIff", "AllDifferent", "BVConcat", "Select", "LT", "LE", "Plus", "Implies"]:
+                judge(name, "(%s, %s)" % (t1, t2), lambda: getattr(m2, name)(a, b), verdict(name, t1, t2))
+            for name in ("MinBV", "MaxBV"):
+                for sign in (False, True):
+                    judge(name, "(%s; %s, %s)" % (sign, t1, t2), lambda: getattr(m2, name)(sign, a, b), verdict(name, t1, t2))
+            judge("Ite", "(Bool, %s, %s)" % (t1, t2), lambda: m2.Ite(sym[BOOL][2], a, b), "accept" if t1 == t2 else "reject")
+            if t1.is_bv_type() and t2.is_bv_type():
+                # constants on either side (widths >= 1) for the relations, whose rule reads the width of the first operand
+                for x, y in ((a, const.get(t2)), (const.get(t1), b), (const.get(t1), const.get(t2))):
+                    if x is None or y is None:
+                        continue
+                    for name in rel_like:
+                        judge(name, "(%s, %s)" % (sdesc(t1, x), sdesc(t2, y)), lambda: getattr(m2, name)(x, y), verdict(name, t1, t2))
+                # three operands: every operand after the first must match the first
+                for t3 in (t1, t2, BVType(0)):
+                    for name in ("AllDifferent", "BVAnd", "BVAdd"):
+                        judge(name, "(%s, %s, %s)" % (t1, t2, t3), lambda: getattr(m2, name)(a, b, sym[t3][2]),
+                              "reject" if not (t1 == t2 == t3) else ("accept" if t1.width >= 1 else None))
+    for t in bsorts:
+        a = sym[t][0]
+        for name in ("BVNot", "BVNeg", "BVToNatural"):
+            judge(name, "(%s)" % t, lambda: getattr(m2, name)(a), ("accept" if t.width >= 1 else None) if t.is_bv_type() else "reject")
+        w = t.width if t.is_bv_type() else 8
+        for name in ("BVRol", "BVRor", "BVZExt", "BVSExt", "BVRepeat"):
+            for k in sorted({0, 1, w, w + 1}):
+                judge(name, "(%s, %d)" % (t, k), lambda: getattr(m2, name)(a, k), None if t.is_bv_type() else "reject")
+        for (st, e) in ((0, 0), (0, w - 1), (w - 1, w - 1), (0, w), (w, w), (1, 0), (0, None), (w, None)):
+            ok_rng = t.is_bv_type() and 0 <= st <= (w - 1 if e is None else e) < w
+            judge("BVExtract", "(%s, %s, %s)" % (t, st, e), lambda: m2.BVExtract(a, st, e), "accept" if ok_rng else "reject")
+        for arr in arrs2:
+            for t3 in (arr.elem_type, BVType(0), BVType(8)):
+                judge("Store", "(%s, %s, %s)" % (arr, t, t3), lambda: m2.Store(sym[arr][0], a, sym[t3][2]),
+                      "accept" if (arr.index_type == t and arr.elem_type == t3) else "reject")
     chk.cov["constructor_calls"] = ncalls
+    chk.cov["width_boundary_constructor_calls"] = ncalls - n0
+    chk.note("width-boundary constructor grid done (%d calls)" % (ncalls - n0))
     chk.sample({"kind": "constructor", "case": "Pow(BV8 symbol, BV8 constant) / BVRol(x, -1) / Ite(Bool, Int, Real) ..."})
+
+    # ------------------------------------------------------------------ the parser's own sort checks
+    chk.note("SMT-LIB scripts: declared sort x derived sort through every binding construct of the parser")
+    from io import StringIO
+    from pysmt.smtlib.parser import SmtLibParser
+    from . import c03_scripts
+    nscripts = naccepted = 0
+    for key, cmds, path, dsort in c03_scripts.cases(tier):
+        nscripts += 1
+        text = c03_scripts.render_script(cmds)
+        want, why = c03_scripts.reference(cmds)
+        penv = Environment()
+        try:
+            f = SmtLibParser(penv).get_script(StringIO(text)).get_last_formula()
+            err = None
+        except Exception as ex:   # noqa: any error = the script is rejected
+            f, err = None, "%s: %s" % (type(ex).__name__, str(ex)[:120])
+        chk.count(("script", key))
+        fam = key.split(":")[0]
+        if f is None:
+            if want == "ok":
+                chk.violation({"kind": "input", "what": "a well-sorted script is rejected by the parser (%s)" % err, "script": text, "family": key},
+                              key="parser-rejects:%s" % key)
+            continue
+        naccepted += 1
+        if want == "ill":
+            chk.violation({"kind": "input", "what": "an ill-sorted script is accepted by SmtLibParser: %s; returned %s" % (why, f.serialize()),
+                           "script": text, "family": key, "returned_type_of_probe": safe_type(f),
+                           "repro": "SmtLibParser().get_script(StringIO(script)).get_last_formula()"},
+                          key="parser-accepts:%s" % key)
+            continue
+        # accepted and well-sorted: the returned terms have exactly the declared sorts
+        probe = f
+        for i in path:
+            if i < len(probe.args()):
+                probe = probe.arg(i)
+            else:
+                break               # constant folding by the constructors (ground terms): the node reached has the same sort
+        if safe_type(probe) != c03_scripts.PYSMT[dsort]:
+            chk.violation({"kind": "input", "what": "the term %s read from the script has type %s; by the declarations it has sort %s"
+                           % (probe.serialize(), safe_type(probe), c03_scripts.PYSMT[dsort]), "script": text, "family": key, "returned": f.serialize()},
+                          key="parser-type:%s" % key)
+            continue
+        try:
+            t = refeval.type_of(f)
+        except refeval.IllTyped as ex:
+            chk.violation({"kind": "input", "what": "the formula read from the script is ill-typed: %s" % ex, "script": text, "returned": f.serialize()},
+                          key="parser-illtyped:%s" % key)
+            continue
+        except refeval.Unsupported:
+            continue
+        if str(t) != safe_type(f) or str(t) != "Bool":
+            chk.violation({"kind": "input", "what": "asserted formula: reported type %s, derived type %s" % (safe_type(f), t), "script": text},
+                          key="parser-asserttype:%s" % key)
+    chk.cov["parser_scripts"] = {"scripts": nscripts, "accepted": naccepted}
+    chk.sample({"kind": "script", "case": "(define-fun f ((a Int)) Real (+ a 1)) (declare-fun y () Int) (assert (= (f y) (f y))) -> must be rejected"})
 
     # ------------------------------------------------------------------ formulas that exist are well typed
     env3 = Environment()
@@ -280,7 +531,7 @@ def run(tier):
                 chk.violation({"kind": "input", "what": "simplify changed the type from %s to %s" % (refeval.type_of(f), t), "formula": f.serialize(), "result": h.serialize()},
                               key="simptype:%s:%s" % (refeval.type_of(f), t))
 
-    if (not ok or bad or errs) and not chk.violations and not chk.known_hits:
+    if (not ok or bad or errs) and not chk.violations:
         what = []
         if not ok:
             what.append("proof obligations no longer check: " + lib.proof_failure_summary(chk))
@@ -290,7 +541,10 @@ def run(tier):
     return chk.finish(TRUSTED, ASSUME,
                       "create_node level: every operator x payload grid x argument-sort tuples over an 11-sort universe (arity 0-2 exhaustive, arity 3 "
                       "sampled in quick / exhaustive in thorough, arity 4-5 sampled for n-ary operators); constructor level: every public constructor "
-                      "x sort combinations x symbol/constant variants; distinct = distinct (operator, payload, sorts)")
+                      "x sort combinations x symbol/constant variants; WIDTH-BOUNDARY family (BV widths 0,1,2,8,9,16,33,64,65,257 and array / function "
+                      "sorts over them, every ordered pair) at both levels with the verdict stated directly on the sorts; PARSER family (declared sort x "
+                      "derived sort over 8 sorts through define-fun / declared and defined applications / let / binders, ground and non-ground) against "
+                      "a strict sort checker; distinct = distinct (operator, payload, sorts) / script")
 
 
 def replay(path):
